@@ -5,7 +5,7 @@
 
   PARTIAL.  The full statement is
       ∀ rs rawbits layers numDataCodewords, (rs_Decode agrees with rs and keeps the length) →
-        Gen.K11b.correctBits fuel layers g6 g8 g10 g12 numDataCodewords rs_Decode rawbits
+        Gen.K11b.correctBits fuel g10 g12 g6 g8 numDataCodewords layers rs_Decode rawbits
           = expect (AztecDecoder.correctBits rs (boolsOf rawbits) layers numDataCodewords)
   What is proved here is that equation on a fixed, structured set of arguments by kernel evaluation of BOTH sides
   (`k_correctBits_samples_partial`): all four codeword sizes; data words 1 and mask-1 (stuffing, both polarities), ordinary
@@ -35,7 +35,7 @@ def rawOf (pad w : Nat) (ws : List Nat) : List Bool := List.replicate pad true +
 when_kernel Gzx.Gen.K11b.correctBits in
 def sampleOK (rs : RSDecoder) (rsI : Int → List Int → Int → Res (Bool × List Int)) (L nd pad : Nat) (ws : List Nat) : Bool :=
   let bs := rawOf pad (codewordSize L) ws
-  decide (Gen.K11b.correctBits 200 (L : Int) 6 8 10 12 (nd : Int) rsI (bitsI bs) = expectCB (correctBits rs bs L nd))
+  decide (Gen.K11b.correctBits 200 10 12 6 8 (nd : Int) (L : Int) rsI (bitsI bs) = expectCB (correctBits rs bs L nd))
 
 when_kernel Gzx.Gen.K11b.correctBits in
 /-- `correctBits` agrees with the model on the structured sample set described in the file header -/
